@@ -61,6 +61,14 @@ func (g *genState) pickSchema(idx int) schemaSpec {
 		return filt
 	case "c04":
 		return g.schemaC04(idx)
+	case "c06":
+		g.vecMetric = "euclidean"
+		sc := schemaSpec{{path: "fv", kind: ixFlat, dim: g.dim, metric: "euclidean"}, {path: "txt", kind: ixText}, {path: "i", kind: ixInt},
+			{path: "s", kind: ixStr, caseSens: true}, {path: "tags", kind: ixStrArr, caseSens: false}, {path: "nested.n", kind: ixInt}}
+		if idx%2 == 1 {
+			sc = append(sc, idxSpec{path: "vec", kind: ixVamana, dim: g.dim, metric: "euclidean", search: 30, degree: 4 + r.IntN(5), alpha: 1.2})
+		}
+		return sc
 	case "c05":
 		return schemaSpec{{path: []string{"txt", "meta.body"}[idx%2], kind: ixText}, {path: "i", kind: ixInt}, {path: "tags", kind: ixStrArr, caseSens: true}}
 	case "c01":
